@@ -3,9 +3,13 @@
      Theorem merge_self : forall now d, wf_self d -> merge now d d = Ok (d, []).
 
    [wf_self d]: (1) the UUIDs of the root group and of all its descendants are pairwise distinct,
-   (2) every group below the root carries a LastModificationTime.  Nothing else is needed:
-   - the root's own time stamp is never looked at (merge_group_head does not find the root among
-     its descendants);
+   (2) every group, THE ROOT INCLUDED, carries a LastModificationTime.  Nothing else is needed:
+   - since the repair F19 ("merge the root group's own fields") the root group is handed to
+     Group::merge_with like every other group: merge_group_head recognises the root by its UUID
+     and merges its fields in place.  A root without a LastModificationTime is read as [now] on
+     the destination side and as the epoch on the source side and two warnings are logged
+     ([cx_root_lm_needed]); before the repair the root's stamp was never looked at and (2) only
+     spoke about the groups below the root;
    - entries are never handed to Entry::merge: the loop sees `!existing.has_diverged_from(other)`
      first and continues; so neither the entries' time stamps nor their histories matter (and
      Entry::merge of an entry with itself would in fact be the error
@@ -14,7 +18,7 @@
      the destination's list, so both loops skip all of them ([merge_deletions_self]).  A tombstone
      that names a group of the tree only switches the `is_in_deleted_group` flag on, which has no
      effect when every node is found where it already is.
-   Each of the two hypotheses is needed: see the counter-examples at the end. *)
+   Each of the two hypotheses is needed, (2) for the root too: see the counter-examples at the end. *)
 From Coq Require Import Sorted.
 From KP Require Import Bytes Outcome Tree TreeFacts History Merge MergeProofs MergeLookup MergeUuids.
 Local Open Scope N_scope.
@@ -26,8 +30,9 @@ Definition group_has_lm (n : node) : Prop :=
 
 (* (1) root and descendants have pairwise distinct UUIDs *)
 Definition uuids_ok (d : db) : Prop := NoDup (gi_uuid (db_root_info d) :: uus (db_children d)).
-(* (2) every group below the root has a LastModificationTime *)
-Definition groups_lm_ok (d : db) : Prop := Forall group_has_lm (nodes_of (db_children d)).
+(* (2) the root group and every group below it have a LastModificationTime
+   (before the repair F19: only the groups below the root) *)
+Definition groups_lm_ok (d : db) : Prop := Forall group_has_lm (db_root d :: nodes_of (db_children d)).
 
 Definition wf_self (d : db) : Prop := uuids_ok d /\ groups_lm_ok d.
 
@@ -45,7 +50,7 @@ Definition group_has_lmb (n : node) : bool :=
   end.
 
 Definition uuids_okb (d : db) : bool := nodupb (gi_uuid (db_root_info d) :: uus (db_children d)).
-Definition groups_lm_okb (d : db) : bool := forallb group_has_lmb (nodes_of (db_children d)).
+Definition groups_lm_okb (d : db) : bool := forallb group_has_lmb (db_root d :: nodes_of (db_children d)).
 Definition wf_selfb (d : db) : bool := uuids_okb d && groups_lm_okb d.
 
 Lemma nodupb_spec l : nodupb l = true <-> NoDup l.
@@ -256,6 +261,8 @@ Section self.
   Variable rch : list node.
   Hypothesis Nd : NoDup (uus rch).
   Hypothesis Hlm : Forall group_has_lm (nodes_of rch).
+  (* the root's UUID does not occur below the root: a group below the root is not taken for it *)
+  Hypothesis Hroot : ~ In (gi_uuid ri) (uus rch).
 
   Local Notation root := (NG ri rch).
 
@@ -283,11 +290,21 @@ Section self.
     rewrite H. reflexivity.
   Qed.
 
-  (* the part before the loops *)
+  Lemma at_path_not_root loc pc si sch :
+    at_path loc rch pc -> In (NG si sch) pc -> gi_uuid si <> gi_uuid ri.
+  Proof.
+    intros Hp Hi E. apply Hroot. rewrite <- E, uus_nodes.
+    change (gi_uuid si) with (uuid_of (NG si sch)). apply in_map.
+    eapply at_path_nodes; [exact Hp|]. apply in_nodes_of_self. exact Hi.
+  Qed.
+
+  (* the part before the loops, for a group below the root *)
   Lemma merge_group_head_self loc pc si sch :
     at_path loc rch pc -> In (NG si sch) pc -> merge_group_head now si root = Ok (root, []).
   Proof.
-    intros Hp Hi. unfold merge_group_head. cbn [children_of].
+    intros Hp Hi.
+    rewrite merge_group_head_not_root by (intros _; exact (at_path_not_root loc pc si sch Hp Hi)).
+    unfold merge_group_head_below. cbn [children_of].
     pose proof (fnl_db_at loc rch pc (NG si sch) Nd Hp Hi) as Hf. cbn [uuid_of] in Hf. rewrite Hf.
     rewrite (find_group_at loc pc si sch Hp Hi). cbn [of_option bind].
     rewrite (group_merge_self now si (at_path_has_lm loc pc si sch Hp Hi)). cbn [bind].
@@ -360,16 +377,17 @@ Section self.
     rewrite (groups_loop_self _ c in_del c Hc (incl_refl c) IH). reflexivity.
   Qed.
 
-  (* the root itself: not found among its own descendants, so the head does nothing *)
-  Hypothesis Hroot : ~ In (gi_uuid ri) (uus rch).
+  (* the root itself: since the repair F19 the head step is Group::merge_with of the root's own
+     fields with themselves (before: the root was not found among its own descendants and the head
+     did nothing); that is the identity exactly when the root is stamped, [group_merge_self] *)
+  Hypothesis Hrlm : t_lm (gi_times ri) <> None.
+
+  Lemma merge_group_head_root_self : merge_group_head now ri root = Ok (root, []).
+  Proof. rewrite merge_group_head_root by reflexivity. rewrite (group_merge_self now ri Hrlm). reflexivity. Qed.
 
   Theorem merge_group_root_self : merge_group now del [] root false root = Ok (root, []).
   Proof.
-    rewrite merge_group_unfold. unfold merge_group_head. cbn [children_of].
-    assert (Hn : fnl_db (gi_uuid ri) rch = None).
-    { destruct (fnl_db (gi_uuid ri) rch) as [l|] eqn:E; [|reflexivity].
-      exfalso. apply Hroot. exact (fnl_db_some_in _ _ l E). }
-    rewrite Hn. cbn [bind].
+    rewrite merge_group_unfold. rewrite merge_group_head_root_self. cbn [bind].
     assert (Hp : at_path [] rch rch) by reflexivity.
     rewrite (merge_entries_self [] rch false rch Hp (incl_refl rch)). cbn [bind].
     rewrite (groups_loop_self [] rch false rch Hp (incl_refl rch)); [reflexivity|].
@@ -381,10 +399,11 @@ End self.
 
 Theorem merge_self : forall now d, wf_self d -> merge now d d = Ok (d, []).
 Proof.
-  intros now [ri rch dl] [Hu Hl]. unfold uuids_ok, groups_lm_ok in *.
+  intros now [ri rch dl] [Hu Hl]. unfold uuids_ok, groups_lm_ok, db_root in *.
   cbn [db_root_info db_children] in *. apply NoDup_cons_iff in Hu as [Hroot Nd].
+  apply Forall_cons_iff in Hl as [Hrl Hl]. cbn [group_has_lm] in Hrl.
   unfold merge, db_root. cbn [db_root_info db_children db_deleted].
-  rewrite (merge_group_root_self now dl ri rch Nd Hl Hroot). cbn [bind].
+  rewrite (merge_group_root_self now dl ri rch Nd Hl Hroot Hrl). cbn [bind].
   rewrite merge_deletions_self. reflexivity.
 Qed.
 
@@ -504,11 +523,13 @@ Proof. apply wf_selfb_spec. vm_compute. reflexivity. Qed.
 Example ex_db_merge : merge 5 ex_db ex_db = Ok (ex_db, []).
 Proof. vm_compute. reflexivity. Qed.
 
-(* what is NOT needed: the root and the entries have no LastModificationTime, a history is
+(* what is NOT needed: the entries have no LastModificationTime, a history is
    unsorted with a repeated and a missing time stamp, tombstones name a group and an entry of the
-   tree with times later than theirs.  Still well-formed, still nothing happens. *)
+   tree with times later than theirs.  Still well-formed, still nothing happens.
+   (Before the repair F19 the root here had no LastModificationTime either; now that is
+   [cx_root_lm_needed] below.) *)
 Definition ex_wild : db :=
-  mkDb (mkGinfo 100 1 times_default)
+  mkDb (mkGinfo 100 1 (tm 9 0))
        [NE (mkEntry 1 12 times_default
                     (Some [mkEntry 1 10 (tm 1 0) None; mkEntry 1 11 (tm 4 0) None;
                            mkEntry 1 13 (tm 4 0) None; mkEntry 1 14 times_default None]));
@@ -526,13 +547,13 @@ Definition ex_wild_live : db := mkDb (db_root_info ex_wild) (db_children ex_wild
 
 Example ex_wild_other :
   merge 5 ex_wild_live ex_wild =
-  Ok (mkDb (mkGinfo 100 1 times_default) [] [mkDobj 2 100; mkDobj 1 100; mkDobj 11 100; mkDobj 10 100],
+  Ok (mkDb (mkGinfo 100 1 (tm 9 0)) [] [mkDobj 2 100; mkDobj 1 100; mkDobj 11 100; mkDobj 10 100],
       [Ev EntryDeleted 2; Warn; Ev EntryDeleted 1; Ev GroupDeleted 11; Ev GroupDeleted 10]).
 Proof. vm_compute. reflexivity. Qed.
 
 (* ---------- each hypothesis is needed ---------- *)
 
-(* (2) dropped: a group without LastModificationTime; UUIDs distinct.  Two warnings. *)
+(* (2) dropped below the root: a group without LastModificationTime; UUIDs distinct.  Two warnings. *)
 Definition cx_lm : db := mkDb (mkGinfo 100 0 (tm 1 0)) [NG (mkGinfo 1 0 times_default) []] [].
 
 Example cx_lm_needed :
@@ -540,6 +561,26 @@ Example cx_lm_needed :
   /\ merge 5 cx_lm cx_lm = Ok (cx_lm, [Warn; Warn])
   /\ merge 5 cx_lm cx_lm <> Ok (cx_lm, []).
 Proof.
+  split; [vm_compute; reflexivity|]. split; [vm_compute; reflexivity|].
+  split; [vm_compute; reflexivity|]. intro H. vm_compute in H. discriminate H.
+Qed.
+
+(* (2) dropped for the root only (new with the repair F19): the root has no LastModificationTime,
+   every group below it has one, UUIDs distinct.  Group::merge_with of the root with itself reads
+   the missing stamp as [now] on one side and as the epoch on the other: two warnings, whatever
+   [now] is; nothing else changes. *)
+Definition cx_root_lm : db :=
+  mkDb (mkGinfo 100 0 times_default) [NG (mkGinfo 1 0 (tm 2 0)) [NE (mkEntry 2 10 (tm 1 0) (Some []))]] [].
+
+Example cx_root_lm_needed :
+  uuids_okb cx_root_lm = true
+  /\ forallb group_has_lmb (nodes_of (db_children cx_root_lm)) = true
+  /\ groups_lm_okb cx_root_lm = false
+  /\ merge 5 cx_root_lm cx_root_lm = Ok (cx_root_lm, [Warn; Warn])
+  /\ merge 0 cx_root_lm cx_root_lm = Ok (cx_root_lm, [Warn; Warn])
+  /\ merge 5 cx_root_lm cx_root_lm <> Ok (cx_root_lm, []).
+Proof.
+  split; [vm_compute; reflexivity|]. split; [vm_compute; reflexivity|].
   split; [vm_compute; reflexivity|]. split; [vm_compute; reflexivity|].
   split; [vm_compute; reflexivity|]. intro H. vm_compute in H. discriminate H.
 Qed.
@@ -563,30 +604,35 @@ Proof.
   split; [vm_compute; reflexivity|]. intro H. vm_compute in H. discriminate H.
 Qed.
 
-(* (1) dropped for the root only: the root's UUID is also an entry's (descendants distinct):
-   merge_group looks the root up, finds the entry's location and fails. *)
-Definition cx_root : db := mkDb (mkGinfo 1 0 (tm 1 0)) [NE (mkEntry 1 10 (tm 1 0) (Some []))] [].
+(* (1) dropped for the root only: a sub-group carries the root's UUID (descendants distinct).
+   Since the repair F19 merge_group takes that sub-group for the root: the ROOT is overwritten with
+   the newer sub-group's data and an update of the root is reported.  (Before the repair it was
+   the other way round: the root was looked up among its descendants, this sub-group was found
+   and overwritten with the root's data.) *)
+Definition cx_root2 : db := mkDb (mkGinfo 1 7 (tm 2 0)) [NG (mkGinfo 1 3 (tm 9 0)) []] [].
 
-Example cx_root_needed :
-  nodupb (uus (db_children cx_root)) = true /\ uuids_okb cx_root = false /\ groups_lm_okb cx_root = true
-  /\ merge 5 cx_root cx_root = Err (EFindGroup [1])
-  /\ merge 5 cx_root cx_root <> Ok (cx_root, []).
+Example cx_root2_needed :
+  nodupb (uus (db_children cx_root2)) = true /\ uuids_okb cx_root2 = false /\ groups_lm_okb cx_root2 = true
+  /\ merge 5 cx_root2 cx_root2 =
+     Ok (mkDb (mkGinfo 1 3 (tm 9 0)) [NG (mkGinfo 1 3 (tm 9 0)) []] [], [Ev GroupUpdated 1])
+  /\ merge 5 cx_root2 cx_root2 <> Ok (cx_root2, []).
 Proof.
   split; [vm_compute; reflexivity|]. split; [vm_compute; reflexivity|]. split; [vm_compute; reflexivity|].
   split; [vm_compute; reflexivity|]. intro H. vm_compute in H. discriminate H.
 Qed.
 
-(* the same with a sub-group carrying the root's UUID: it is overwritten with the root's data *)
-Definition cx_root2 : db := mkDb (mkGinfo 1 7 (tm 9 0)) [NG (mkGinfo 1 3 (tm 2 0)) []] [].
+(* ... and it is needed for groups only: an ENTRY carrying the root's UUID no longer disturbs the
+   self-merge, because the root is not looked up among its descendants any more.  (Before the
+   repair F19 this was the counter-example [cx_root_needed]: merge_group looked the root up, found
+   the entry's location and failed with Err (EFindGroup [1]).) *)
+Definition cx_root : db := mkDb (mkGinfo 1 0 (tm 1 0)) [NE (mkEntry 1 10 (tm 1 0) (Some []))] [].
 
-Example cx_root2_needed :
-  nodupb (uus (db_children cx_root2)) = true /\ uuids_okb cx_root2 = false /\ groups_lm_okb cx_root2 = true
-  /\ merge 5 cx_root2 cx_root2 =
-     Ok (mkDb (mkGinfo 1 7 (tm 9 0)) [NG (mkGinfo 1 7 (tm 9 0)) []] [], [Ev GroupUpdated 1])
-  /\ merge 5 cx_root2 cx_root2 <> Ok (cx_root2, []).
+Example cx_root_entry_harmless :
+  nodupb (uus (db_children cx_root)) = true /\ uuids_okb cx_root = false /\ groups_lm_okb cx_root = true
+  /\ merge 5 cx_root cx_root = Ok (cx_root, []).
 Proof.
   split; [vm_compute; reflexivity|]. split; [vm_compute; reflexivity|]. split; [vm_compute; reflexivity|].
-  split; [vm_compute; reflexivity|]. intro H. vm_compute in H. discriminate H.
+  vm_compute; reflexivity.
 Qed.
 
 (* entry level: Entry::merge of a stamped entry with itself is an error; of an unstamped one
